@@ -984,3 +984,18 @@ fire('C15', 'machine-reset-primes-generator-policy', 'C15.R8', 'Machine.reset::c
 silent('C15', 'source-reset-inspects-policy-without-consulting',
        lambda p: M.replace_node(p, N_SRC, 'Source.reset', M.if_testing('isinstance(self.out_edge_selection, int)'),
                                 lambda s: 'policy = self.out_edge_selection\nif callable(policy) and not hasattr(policy, "__name__"):\n    print("anonymous policy", repr(policy))\n' + s))
+
+# ---- C18.R8: counters move with the events they count (seed C18-c)
+def _machine_count_before_wait(p):
+    s = p.modules[N_MAC].src
+    old = '                    item.update_node_event(self.id, self.env, "exit")\n                    self.stats["num_item_processed"] += 1\n                    y=outedge_to_put.put(put_event, item)'
+    if old not in s or 'put_event=outedge_to_put.reserve_put()' not in s:
+        raise M.Stale('Machine.worker blocking constant-index push not found')
+    s = s.replace(old, '                    item.update_node_event(self.id, self.env, "exit")\n                    y=outedge_to_put.put(put_event, item)', 1)
+    s = s.replace('                    put_event=outedge_to_put.reserve_put()', '                    self.stats["num_item_processed"] += 1\n                    put_event=outedge_to_put.reserve_put()', 1)
+    return {N_MAC: s}
+fire('C18', 'machine-counts-processed-before-waiting-for-room (seed C18-c)', 'C18.R8', 'counter-instant:num_item_processed', _machine_count_before_wait)
+silent('C18', 'machine-counts-processed-right-after-the-put',
+       lambda p: {N_MAC: p.modules[N_MAC].src.replace(
+           '                    self.stats["num_item_processed"] += 1\n                    y=outedge_to_put.put(put_event, item)',
+           '                    y=outedge_to_put.put(put_event, item)\n                    self.stats["num_item_processed"] += 1', 1)})
